@@ -3,5 +3,7 @@ CONSTANTS
   NSet = {2, 3, 4, 5}
   Data <- MCData
   Emit = TRUE
+  Scales = {"no", "bond", "angle"}
+  Seconds <- MCSeconds
 INVARIANTS AllInside EndsHit Vector
 CHECK_DEADLOCK FALSE
